@@ -177,6 +177,9 @@ func c17G3Writes(r *core.R, o *c17Opt) {
 				switch x := n.(type) {
 				case *ast.AssignStmt:
 					for i, l := range x.Lhs {
+						if lf := fieldOf(info, l); lf != nil && lf != f && o.holds(lf, f) {
+							sites = append(sites, site{fi: fi}) // the struct holding the option is replaced as a whole
+						}
 						if fieldOf(info, l) == f {
 							s := site{as: x, fi: fi}
 							if len(x.Rhs) == len(x.Lhs) {
@@ -196,12 +199,14 @@ func c17G3Writes(r *core.R, o *c17Opt) {
 					}
 				case *ast.CompositeLit:
 					// composite literals of the context must not set option fields either
-					if namedPath(info.TypeOf(x)) != namedPath(o.ctxNamed) {
+					// (nor literals of a struct the context holds, e.g. an embedded settings struct)
+					lt := info.TypeOf(x)
+					if lt == nil || !o.structHas(lt, f) || namedPath(lt) == "" {
 						return true
 					}
 					for _, e := range x.Elts {
 						if kv, ok := e.(*ast.KeyValueExpr); ok {
-							if id, ok := kv.Key.(*ast.Ident); ok && info.Uses[id] == f {
+							if id, ok := kv.Key.(*ast.Ident); ok && (info.Uses[id] == f) {
 								sites = append(sites, site{fi: fi})
 							}
 						} else {
